@@ -238,7 +238,7 @@ func genRemedies(r *prng.R, prefix string, onlyFix bool) string {
 	for i := 0; i < n; i++ {
 		t := prng.Pick(r, []int{1, 2, 3, 7, 7, 0})
 		if onlyFix {
-			t = 7
+			t = prng.Pick(r, []int{7, 7, 8}) // fixed response answers early, retry acts on the response leg
 		}
 		en := 1
 		if r.Chance(12) {
